@@ -21,6 +21,7 @@ import (
 	"fmt"
 	"strconv"
 	"strings"
+	"unicode"
 
 	"deps.dev/util/resolve/dep"
 )
@@ -76,41 +77,10 @@ func buildParsingDict(keys []dep.AttrKey) map[string]dep.AttrKey {
 //	Dev Framework .NETStandard1.0 Test
 func ParseString(s string) (dep.Type, error) {
 	var dt dep.Type
-	items := strings.Fields(s)
-	// Join quoted fields back together.
-	var (
-		quoted []string
-		w      int
-	)
-	for i := 0; i < len(items); i++ {
-		if items[i][0] != '"' {
-			items[w] = items[i]
-			w++
-			continue
-		}
-		for i < len(items) {
-			s := items[i]
-			quoted = append(quoted, s)
-			i++
-			if s[len(s)-1] == '"' {
-				if len(s) >= 2 && s[len(s)-2:] == `\"` {
-					continue
-				}
-				uq, err := strconv.Unquote(strings.Join(quoted, " "))
-				if err != nil {
-					return dep.Type{}, err
-				}
-				items[w] = uq
-				w++
-				quoted = quoted[:0]
-				break
-			}
-		}
+	items, err := splitFields(s)
+	if err != nil {
+		return dep.Type{}, err
 	}
-	if len(quoted) != 0 {
-		return dep.Type{}, fmt.Errorf("unterminated quotes in %s", s)
-	}
-	items = items[:w]
 	for i := 0; i < len(items); i++ {
 		key, ok := parsingDict[strings.ToLower(items[i])]
 		if !ok {
@@ -127,6 +97,38 @@ func ParseString(s string) (dep.Type, error) {
 		dt.AddAttr(key, items[i])
 	}
 	return dt, nil
+}
+
+// splitFields splits s around white space, except that a field starting with
+// a double quote is a Go quoted string, which may contain spaces and is
+// returned unquoted.
+func splitFields(s string) ([]string, error) {
+	var items []string
+	for {
+		s = strings.TrimLeftFunc(s, unicode.IsSpace)
+		if s == "" {
+			return items, nil
+		}
+		if s[0] == '"' {
+			q, err := strconv.QuotedPrefix(s)
+			if err != nil {
+				return nil, fmt.Errorf("unterminated quotes in %s", s)
+			}
+			uq, err := strconv.Unquote(q)
+			if err != nil {
+				return nil, err
+			}
+			items = append(items, uq)
+			s = s[len(q):]
+			continue
+		}
+		i := strings.IndexFunc(s, unicode.IsSpace)
+		if i < 0 {
+			i = len(s)
+		}
+		items = append(items, s[:i])
+		s = s[i:]
+	}
 }
 
 // Must returns the given dep type if the given error is nil, otherwise panics.
